@@ -269,7 +269,7 @@ type world struct {
 	buffered  []*zapcore.BufferedWriteSyncer
 	// consoleMod4: io leaves whose id ≡ 3 (mod 4) encode with the console encoder instead of the JSON encoder
 	consoleMod4 bool
-	shared map[int]zapcore.Core // cores built once for subtrees with the same Sh
+	shared      map[int]zapcore.Core // cores built once for subtrees with the same Sh
 	// kept: every entry an observer recorded, with the description taken when it was drained (C07 re-checks them)
 	kept []keptEntry
 }
